@@ -150,7 +150,7 @@ Definition m_st_size (f : fs) (p : path) : res N :=
   end.
 Definition m_read_text (f : fs) (p : path) : res gbody :=
   match lstat f p with
-  | Some (File c) => match decode c with
+  | Some (File c) => match read_text c with
                      | Some t => Ok (GFile p t)
                      | None => Err (lit "UnicodeDecodeError") (lit "invalid utf-8")
                      end
